@@ -240,7 +240,8 @@ class World:
                 if child.get("setter"):
                     def setter(cfg, value, _log=self.counters.setdefault(("vset",) + cpath, [])):
                         _log.append(value)
-                schema._add_field(key, cc.VirtualField(lambda cfg, _of=of: getattr(cfg, _of), setter))
+                vkw = {"sensitive": child["sensitive"]} if child.get("sensitive") is not None else {}
+                schema._add_field(key, cc.VirtualField(lambda cfg, _of=of: getattr(cfg, _of), setter, **vkw))
             elif kind == "method":
                 cc.instance_method(schema, key)(lambda cfg, a=1, *args, **kw: ("called", a))
             else:
